@@ -10,9 +10,16 @@ import (
 	"encoding/json"
 	"errors"
 	"fmt"
+	"go/ast"
+	"go/parser"
+	"go/token"
 	"io"
 	"os"
+	"path/filepath"
+	"runtime"
 	"sort"
+	"strings"
+	"sync"
 	"time"
 
 	corelog "tunnox-core/internal/core/log"
@@ -41,6 +48,8 @@ const (
 	opAuthRaw     = 10 // c x          UpdateControlConnectionAuth
 	opToTunnel    = 11 // c t          removeFromControlConnMap + RegisterTunnelConnection (TunnelOpen conversion)
 	opBreakWrites = 12 // c            the transport starts failing writes (peer reset) without being closed
+	opReReg       = 13 // c pre        RegisterControlConnection(NewControlConnection(session conn c)) even if c already has a record (same stream)
+	opReRegNew    = 14 // c pre        the same with a FRESH stream object (raw registry API only; not in the Coq model)
 )
 
 const hour = time.Hour
@@ -174,8 +183,11 @@ type caseIn struct {
 	Depth    int     `json:"depth"`
 	Stride   int     `json:"stride"`
 	Offset   int     `json:"offset"`
+	A        []int   `json:"a"` // "lock" mode: two registry-level operations started while the harness holds the registry mutex
+	B        []int   `json:"b"`
+	Reps     int     `json:"reps"`
 	InjFrom  *int    `json:"injfrom"` // first position that may host an injection (default: after the prefix)
-	Inject   [][]int `json:"inject"` // "ex" mode: also run every word with every one of these operations injected at every interleaving point of one handshake/close/kick
+	Inject   [][]int `json:"inject"`  // "ex" mode: also run every word with every one of these operations injected at every interleaving point of one handshake/close/kick
 }
 
 type stepObs struct {
@@ -195,22 +207,25 @@ type viol struct {
 	Step  int    `json:"step"`
 	Kind  string `json:"kind"`
 	Msg   string `json:"msg"`
-	Known bool   `json:"known_shape"` // exactly the recorded re-authentication defect shape
+	Known bool   `json:"known_shape"` // exactly the shape of a recorded defect
+	Key   string `json:"known_key,omitempty"`
 }
 type caseOut struct {
 	Steps []stepObs `json:"steps"`
 	Viol  []viol    `json:"viol"`
-	Attr  bool      `json:"attributable"` // all violations stem from the recorded re-authentication defect
+	Attr  bool      `json:"attributable"` // all violations stem from one recorded defect ...
+	Key   string    `json:"attr_key"`     // ... namely this one
 }
 type exOut struct {
-	Total   int       `json:"total"`
-	Steps   int       `json:"steps_total"`
-	Viol    []exViol  `json:"viol"`
-	NViol   int       `json:"nviol"`
-	NKnown  int       `json:"nknown"`
-	Fired   int       `json:"fired"` // interleaved runs in which the injected operation actually ran
-	KnownEx []exViol  `json:"known_examples"`
-	Emitted []exEmit  `json:"emitted"`
+	Total    int            `json:"total"`
+	Steps    int            `json:"steps_total"`
+	Viol     []exViol       `json:"viol"`
+	NViol    int            `json:"nviol"`
+	NKnown   int            `json:"nknown"`
+	NKnownBy map[string]int `json:"nknown_by"`
+	Fired    int            `json:"fired"` // interleaved runs in which the injected operation actually ran
+	KnownEx  []exViol       `json:"known_examples"`
+	Emitted  []exEmit       `json:"emitted"`
 }
 type exViol struct {
 	Ops  [][]int `json:"ops"`
@@ -221,25 +236,28 @@ type exEmit struct {
 	Steps []stepObs `json:"steps"`
 	Viol  []viol    `json:"viol"`
 	Attr  bool      `json:"attributable"`
+	Key   string    `json:"attr_key"`
 }
 
 // ---------------------------------------------------------------------------------------------
 // world
 // ---------------------------------------------------------------------------------------------
 type world struct {
-	sm      *session.SessionManager
-	cancel  context.CancelFunc
-	auth    *authHandler
-	tr      map[int]*transport
-	seen    map[*session.ControlConnection]int
-	seq     int
-	epoch   time.Time
-	conns   []int // universe of connection numbers
-	clients []int
-	tunnels []int
-	dead    map[int]bool
-	pk      bool // transports are PackageStreamers (interleaving cases)
-	inj     *injSpec
+	sm            *session.SessionManager
+	cancel        context.CancelFunc
+	auth          *authHandler
+	tr            map[int]*transport
+	seen          map[*session.ControlConnection]int
+	seq           int
+	epoch         time.Time
+	conns         []int // universe of connection numbers
+	clients       []int
+	tunnels       []int
+	dead          map[int]bool
+	objTr         map[*session.ControlConnection]*transport // control connections created with their own (fresh) stream
+	pk            bool                                      // transports are PackageStreamers (interleaving cases)
+	inj           *injSpec
+	mayUnregister bool // one of two concurrently started operations removes a record without closing its stream
 }
 
 func cname(c int) string { return fmt.Sprintf("c%d", c) }
@@ -304,7 +322,7 @@ func universe(ops0 [][]int) (conns, clients, tunnels []int) {
 		case opKick:
 			clients = addUniq(clients, g(1))
 			conns = addUniq(conns, g(2))
-		case opRegRaw, opAuthRaw:
+		case opRegRaw, opAuthRaw, opReReg, opReRegNew:
 			conns = addUniq(conns, g(1))
 			clients = addUniq(clients, g(2))
 		case opToTunnel:
@@ -328,7 +346,7 @@ func newWorld(cfg cfgIn, ops [][]int) *world {
 	}
 	sm := session.NewSessionManagerWithConfig(nil, ctx, sc)
 	w := &world{sm: sm, cancel: cancel, auth: &authHandler{}, tr: map[int]*transport{},
-		seen: map[*session.ControlConnection]int{}, epoch: time.Now().Add(-1000 * hour), dead: map[int]bool{}}
+		objTr: map[*session.ControlConnection]*transport{}, seen: map[*session.ControlConnection]int{}, epoch: time.Now().Add(-1000 * hour), dead: map[int]bool{}}
 	sm.SetAuthHandler(w.auth)
 	w.conns, w.clients, w.tunnels = universe(ops)
 	for _, o := range ops {
@@ -461,6 +479,14 @@ func (s *snap) obs(err, n int) stepObs {
 	return o
 }
 
+func (w *world) closedOf(cc *session.ControlConnection) bool {
+	if t := w.objTr[cc]; t != nil {
+		return t.closed
+	}
+	t := w.tr[cnum(cc.ConnID)]
+	return t != nil && t.closed
+}
+
 // after every operation: give freshly created ControlConnections a deterministic creation order
 // (CreatedAt is only ever compared between control connections: findOldestConnectionLocked)
 func (w *world) stampNew() {
@@ -546,6 +572,25 @@ func (w *world) apply(o []int) (int, int) {
 			}
 			sm.RegisterControlConnection(cc)
 		}
+	case opReReg, opReRegNew:
+		pre := arg(o, 2)
+		conn, ok := sm.GetConnection(id)
+		t := w.tr[c]
+		if ok && conn.Stream != nil && t != nil && !t.closed {
+			var cc *session.ControlConnection
+			if arg(o, 0) == opReReg {
+				cc = session.NewControlConnection(conn.ID, conn.Stream, nil, "tcp")
+			} else {
+				nt := &transport{id: id}
+				cc = session.NewControlConnection(conn.ID, &pstream{t: nt, n: c, w: w}, nil, "tcp")
+				w.objTr[cc] = nt
+			}
+			if pre > 0 {
+				cc.SetClientID(int64(pre))
+				cc.SetAuthenticated(true)
+			}
+			sm.RegisterControlConnection(cc)
+		}
 	case opAuthRaw:
 		x := arg(o, 2)
 		t := w.tr[c]
@@ -572,8 +617,15 @@ func (w *world) apply(o []int) (int, int) {
 // ---------------------------------------------------------------------------------------------
 func (w *world) check(step int, o []int, errFlag, n int, fired bool, pre, post *snap) []viol {
 	var vs []viol
+	addk := func(kind string, known bool, key string, f string, a ...interface{}) {
+		v := viol{Step: step, Kind: kind, Msg: fmt.Sprintf(f, a...), Known: known}
+		if known {
+			v.Key = key
+		}
+		vs = append(vs, v)
+	}
 	add := func(kind string, known bool, f string, a ...interface{}) {
-		vs = append(vs, viol{Step: step, Kind: kind, Msg: fmt.Sprintf(f, a...), Known: known})
+		addk(kind, known, "reauth-stale-index", f, a...)
 	}
 	code, c := arg(o, 0), arg(o, 1)
 	for _, b := range post.bad {
@@ -600,8 +652,11 @@ func (w *world) check(step int, o []int, errFlag, n int, fired bool, pre, post *
 			}()
 			add("idx-cid-mismatch", known, "GetControlConnectionByClientID(%d) returns %s whose ClientID is %d", x, cc.ConnID, cc.ClientID)
 		}
-		if t := w.tr[cn]; t != nil && t.closed {
-			add("idx-closed", false, "GetControlConnectionByClientID(%d) returns %s whose transport is closed", x, cc.ConnID)
+		if w.closedOf(cc) {
+			// recorded defect of the tree as it is: Register of a ConnID that already has a record closes the stream the
+			// (pre-authenticated) replacement shares with it
+			known := code == opReReg && c == cn && pre.reg[c] != nil && arg(o, 2) == x
+			addk("idx-closed", known, "register-replace-closes-shared-stream", "GetControlConnectionByClientID(%d) returns %s whose transport is closed", x, cc.ConnID)
 		}
 		if y, dup := owner[cc]; dup {
 			add("two-ids-one-conn", false, "client ids %d and %d both resolve to %s", y, x, cc.ConnID)
@@ -635,9 +690,10 @@ func (w *world) check(step int, o []int, errFlag, n int, fired bool, pre, post *
 		add("listauth-extra", false, "ListAuthenticated has %d entries, %d authenticated registered", len(post.la), nauth)
 	}
 	// (c) whatever left the registry (other than by Unregister / tunnel conversion) is closed
-	if code != opUnregister && code != opToTunnel {
+	if code != opUnregister && code != opToTunnel && !w.mayUnregister {
 		for cn, cc := range pre.reg {
-			if post.reg[cn] != cc && !post.closed[cn] {
+			// (a record replaced by a re-registration that wraps the same stream hands its open transport over to the replacement)
+			if post.reg[cn] != cc && !w.closedOf(cc) && !(code == opReReg && cn == c && post.reg[cn] != nil) {
 				add("evicted-not-closed", false, "%s left the registry during op %v but its transport is still open", cc.ConnID, o)
 			}
 		}
@@ -651,7 +707,11 @@ func (w *world) check(step int, o []int, errFlag, n int, fired bool, pre, post *
 				add("still-indexed", false, "%s: client id %d still resolves to %s", why, x, cname(cn))
 			}
 		}
-		if w.tr[cn] != nil && !post.closed[cn] {
+		closed := post.closed[cn]
+		if obj := pre.reg[cn]; obj != nil {
+			closed = w.closedOf(obj) // the stream of the record that was registered (its own one if it was created with a fresh stream)
+		}
+		if w.tr[cn] != nil && !closed {
 			add("not-closed", false, "%s: transport of %s not closed", why, cname(cn))
 		}
 	}
@@ -791,16 +851,31 @@ func runCase(raw json.RawMessage) interface{} {
 	if c.Mode == "ex" {
 		return runExhaustive(&c)
 	}
+	if c.Mode == "lock" {
+		return runLock(&c)
+	}
 	steps, vs := runSeq(c.Cfg, c.Ops, true)
 	if vs == nil {
 		vs = []viol{}
 	}
-	return &caseOut{Steps: steps, Viol: vs, Attr: attributable(vs)}
+	return &caseOut{Steps: steps, Viol: vs, Attr: attributable(vs), Key: attrKey(vs)}
 }
 
 // a sequence's violations are attributed to the recorded re-authentication defect iff its first violating
 // step shows exactly that shape (plus its direct corollary "two ids resolve to one connection"); everything
 // in later steps of the same sequence is a consequence of the already corrupted index
+func attrKey(vs []viol) string {
+	if !attributable(vs) {
+		return ""
+	}
+	for _, v := range vs {
+		if v.Step == vs[0].Step && v.Known {
+			return v.Key
+		}
+	}
+	return ""
+}
+
 func attributable(vs []viol) bool {
 	if len(vs) == 0 {
 		return false
@@ -821,7 +896,7 @@ func attributable(vs []viol) bool {
 
 // all sequences prefix ++ w, w over the alphabet with 1 <= |w| <= depth
 func runExhaustive(c *caseIn) interface{} {
-	out := &exOut{Viol: []exViol{}, KnownEx: []exViol{}, Emitted: []exEmit{}}
+	out := &exOut{Viol: []exViol{}, KnownEx: []exViol{}, Emitted: []exEmit{}, NKnownBy: map[string]int{}}
 	k := len(c.Alphabet)
 	stride := c.Stride
 	if stride < 1 {
@@ -879,7 +954,8 @@ func runExhaustive(c *caseIn) interface{} {
 				if len(vs) > 0 {
 					if attributable(vs) {
 						out.NKnown++
-						if len(out.KnownEx) < 2 {
+						out.NKnownBy[attrKey(vs)]++
+						if out.NKnownBy[attrKey(vs)] <= 2 {
 							out.KnownEx = append(out.KnownEx, exViol{Ops: vops, Viol: vs})
 						}
 					} else {
@@ -893,7 +969,7 @@ func runExhaustive(c *caseIn) interface{} {
 					if vs == nil {
 						vs = []viol{}
 					}
-					out.Emitted = append(out.Emitted, exEmit{Ops: vops, Steps: steps, Viol: vs, Attr: attributable(vs)})
+					out.Emitted = append(out.Emitted, exEmit{Ops: vops, Steps: steps, Viol: vs, Attr: attributable(vs), Key: attrKey(vs)})
 				}
 			}
 			// next word
@@ -914,6 +990,218 @@ func runExhaustive(c *caseIn) interface{} {
 	return out
 }
 
+// ---------------------------------------------------------------------------------------------
+// lock contention: A and B are started while the harness holds the registry mutex, so both queue on it; after the
+// release they run in whatever order the runtime picks.  Every ClientRegistry method being ONE critical section, the
+// outcome must satisfy the invariant and equal one of the two sequential outcomes (checked against the model).
+// ---------------------------------------------------------------------------------------------
+type lockOut struct {
+	Runs   int       `json:"runs"`
+	Viol   []exViol  `json:"viol"`
+	NViol  int       `json:"nviol"`
+	Finals []stepObs `json:"finals"` // distinct final states observed
+	Pre    []stepObs `json:"pre"`    // states after every prefix operation (one run)
+	Stuck  int       `json:"stuck"`
+}
+
+func runLock(c *caseIn) interface{} {
+	defer runtime.GOMAXPROCS(runtime.GOMAXPROCS(1))
+	out := &lockOut{Viol: []exViol{}, Finals: []stepObs{}, Pre: []stepObs{}}
+	seen := map[string]bool{}
+	all := append(append([][]int{}, c.Prefix...), c.A, c.B)
+	for rep := 0; rep < c.Reps; rep++ {
+		for order := 0; order < 2; order++ {
+			w := newWorld(c.Cfg, all)
+			var vs []viol
+			pre := w.snapshot()
+			for i, o := range c.Prefix {
+				e, n := w.apply(o)
+				w.stampNew()
+				post := w.snapshot()
+				vs = append(vs, w.check(i, o, e, n, false, pre, post)...)
+				if rep == 0 && order == 0 {
+					out.Pre = append(out.Pre, post.obs(e, n))
+				}
+				pre = post
+			}
+			first, second := c.A, c.B
+			if order == 1 {
+				first, second = c.B, c.A
+			}
+			for _, o := range [][]int{c.A, c.B} {
+				if k := arg(o, 0); k == opUnregister || k == opToTunnel || k == opReReg {
+					w.mayUnregister = true
+				}
+			}
+			release := w.sm.VerifClientRegistry().VerifHold()
+			var wg sync.WaitGroup
+			wg.Add(2)
+			go func() { defer wg.Done(); w.apply(first) }()
+			time.Sleep(150 * time.Microsecond) // let it reach the mutex
+			go func() { defer wg.Done(); w.apply(second) }()
+			time.Sleep(150 * time.Microsecond)
+			release()
+			done := make(chan struct{})
+			go func() { wg.Wait(); close(done) }()
+			select {
+			case <-done:
+			case <-time.After(3 * time.Second):
+				out.Stuck++
+				vs = append(vs, viol{Step: len(c.Prefix), Kind: "lock-stuck", Msg: "the two operations did not return within 3 s"})
+			}
+			w.stampNew()
+			post := w.snapshot()
+			// only the global invariant applies to the pair
+			vs = append(vs, w.check(len(c.Prefix), c.A, 0, 0, true, pre, post)...)
+			out.Runs++
+			ob := post.obs(0, 0)
+			key, _ := json.Marshal(ob)
+			if !seen[string(key)] {
+				seen[string(key)] = true
+				out.Finals = append(out.Finals, ob)
+			}
+			if len(vs) > 0 {
+				out.NViol++
+				if len(out.Viol) < 3 {
+					out.Viol = append(out.Viol, exViol{Ops: append(append([][]int{}, c.Prefix...), first, second), Viol: vs})
+				}
+			}
+			w.close()
+		}
+	}
+	return out
+}
+
+// ---------------------------------------------------------------------------------------------
+// lock shape of every ClientRegistry method, read from the source with go/ast:
+//
+//	0 no acquisition and no access to the maps, or a *Locked helper (callers hold the mutex)
+//	1 one Lock with a deferred Unlock, every access to connMap/clientIDMap after it
+//	2 one Lock ... Unlock pair, every access to the maps between them
+//	3 / 4 the same with RLock (read-only methods)
+//	7 an access to the maps outside the locked region   8 access without any lock   9 the mutex is acquired more than once
+//
+// ---------------------------------------------------------------------------------------------
+func lockShapes() (names []string, shapes map[string]int) {
+	repo := os.Getenv("VERIF_REPO")
+	if repo == "" {
+		repo = "/repo"
+	}
+	fset := token.NewFileSet()
+	f, err := parser.ParseFile(fset, filepath.Join(repo, "internal/protocol/session/client_registry.go"), nil, 0)
+	must(err)
+	shapes = map[string]int{}
+	for _, d := range f.Decls {
+		fd, ok := d.(*ast.FuncDecl)
+		if !ok || fd.Recv == nil || len(fd.Recv.List) != 1 || fd.Body == nil {
+			continue
+		}
+		star, ok := fd.Recv.List[0].Type.(*ast.StarExpr)
+		if !ok {
+			continue
+		}
+		if id, ok := star.X.(*ast.Ident); !ok || id.Name != "ClientRegistry" {
+			continue
+		}
+		recv := ""
+		if len(fd.Recv.List[0].Names) > 0 {
+			recv = fd.Recv.List[0].Names[0].Name
+		}
+		isField := func(e ast.Expr, field string) bool {
+			se, ok := e.(*ast.SelectorExpr)
+			if !ok || se.Sel.Name != field {
+				return false
+			}
+			id, ok := se.X.(*ast.Ident)
+			return ok && id.Name == recv
+		}
+		type acq struct {
+			pos  token.Pos
+			read bool
+		}
+		var acqs []acq
+		var unlocks []token.Pos
+		deferred := false
+		var accesses []token.Pos
+		var visit func(n ast.Node, inDefer bool)
+		visit = func(n ast.Node, inDefer bool) {
+			ast.Inspect(n, func(m ast.Node) bool {
+				switch x := m.(type) {
+				case *ast.DeferStmt:
+					if m != n {
+						visit(x.Call, true)
+						return false
+					}
+				case *ast.CallExpr:
+					if se, ok := x.Fun.(*ast.SelectorExpr); ok && isField(se.X, "mu") {
+						switch se.Sel.Name {
+						case "Lock":
+							acqs = append(acqs, acq{x.Pos(), false})
+						case "RLock":
+							acqs = append(acqs, acq{x.Pos(), true})
+						case "Unlock", "RUnlock":
+							if inDefer {
+								deferred = true
+							} else {
+								unlocks = append(unlocks, x.Pos())
+							}
+						}
+					}
+				case *ast.SelectorExpr:
+					if isField(x, "connMap") || isField(x, "clientIDMap") {
+						accesses = append(accesses, x.Pos())
+					}
+				}
+				return true
+			})
+		}
+		visit(fd.Body, false)
+		shape := 0
+		switch {
+		case len(acqs) == 0:
+			if len(accesses) > 0 && !strings.HasSuffix(fd.Name.Name, "Locked") {
+				shape = 8
+			}
+		case len(acqs) > 1:
+			shape = 9
+		default:
+			lo, hi := acqs[0].pos, fd.Body.End()
+			shape = 1
+			if !deferred {
+				shape = 2
+				if len(unlocks) != 1 {
+					shape = 9
+				} else {
+					hi = unlocks[0]
+				}
+			}
+			if acqs[0].read && shape != 9 {
+				shape += 2
+			}
+			for _, a := range accesses {
+				if a < lo || a > hi {
+					shape = 7
+				}
+			}
+		}
+		names = append(names, fd.Name.Name)
+		shapes[fd.Name.Name] = shape
+	}
+	sort.Strings(names)
+	return
+}
+
+// true iff Register of a ConnID that already has a record closes the stream which the replacement shares with that record
+func probeRereg() bool {
+	ops := [][]int{{opAccept, 1}, {opRegRaw, 1, 0}, {opReReg, 1, 9}}
+	w := newWorld(cfgIn{Tmo: 2}, ops)
+	defer w.close()
+	for _, o := range ops {
+		w.apply(o)
+	}
+	return w.tr[1].closed
+}
+
 func gen() {
 	fmt.Println("(* generated by verif_c07 gen from /repo's working tree — do not edit *)")
 	fmt.Println("From Coq Require Import NArith List. Import ListNotations. Open Scope N_scope.")
@@ -927,6 +1215,21 @@ func gen() {
 	// behaviour probes of the real registry on fixed micro-histories (each is a pair: history id, answer)
 	fmt.Printf("Definition probe_reauth_keeps_old_index : bool := %v.\n", probeReauth())
 	fmt.Printf("Definition probe_limit_evicts_oldest : bool := %v.\n", probeEvict())
+	fmt.Printf("Definition probe_rereg_closes_shared_stream : bool := %v.\n", probeRereg())
+	names, shapes := lockShapes()
+	fmt.Println("(* lock shape of every ClientRegistry method (go/ast over client_registry.go): 0 no lock needed / *Locked helper, 1 Lock+defer Unlock,")
+	fmt.Println("   2 one Lock..Unlock pair, 3/4 the same with RLock, 7 map access outside the locked region, 8 unprotected access, 9 mutex acquired more than once *)")
+	for _, n := range names {
+		fmt.Printf("Definition shape_%s : N := %d.\n", n, shapes[n])
+	}
+	fmt.Print("Definition registry_lock_shapes : list N := [")
+	for i, n := range names {
+		if i > 0 {
+			fmt.Print("; ")
+		}
+		fmt.Printf("shape_%s", n)
+	}
+	fmt.Println("].")
 }
 
 // true iff the registry still resolves the OLD client id after the same connection re-authenticates under another id
